@@ -400,6 +400,15 @@ Definition map_ok (p : pipeline) (rho : str -> str) (spF : list fstruct) (mapin 
   | _, _ => false
   end.
 
+(* a rewrite invents no inputs: a name that the original pipeline COMPUTES (an output of p, through the renamings) is
+   never a root argument of the result - every unbound parameter of the final structure that is such a name is an
+   output of the final structure (an output that a combined function hides while another function still takes it would
+   silently be read from the keywords or from a default) *)
+Definition no_new_roots (p : pipeline) (rho : str -> str) (spF : list fstruct) : bool :=
+  let outsF := st_outputs spF in
+  let old := map rho (all_outputs p) in
+  forallb (fun x => forallb (fun c => ahas (s_bound x) c || mem_str c outsF || negb (mem_str c old)) (s_params x)) spF.
+
 (* walk the operations: every request that must be accepted is accepted and retains what it must *)
 Fixpoint ops_ok (ops : list op) (i : nat) (sp : list fstruct) (failed : option nat) (structs : list sx)
          (rho : str -> str) (k : list fstruct -> (str -> str) -> bool) : bool :=
@@ -433,6 +442,7 @@ Definition spec_ok (c : case) (obs : sx) : bool :=
             ops_ok ops 0 (struct_of_pipeline p) failed structs (fun n => n)
                    (fun spF rho =>
                       (length cobs =? length calls)
+                      && no_new_roots p rho spF
                       && forallb (fun co => call_ok p rho spF (fst co) (snd co)) (combine calls cobs)
                       && map_ok p rho spF mapin mobs)
         | _ => false
